@@ -43,6 +43,11 @@ class StreamControl:
         logger().debug('Finishing stream: %s', stream_id)
         self._streams.pop(stream_id, None)
 
+    def finish_stream_of(self, stream_id: int, handler: StreamHandler):
+        """Finish the stream only if `handler` is still the one registered for it."""
+        if self._streams.get(stream_id) is handler:
+            self.finish_stream(stream_id)
+
     def register_stream(self, stream_id: int, handler: StreamHandler):
         if stream_id == CONNECTION_STREAM_ID:
             raise RuntimeError('Attempt to allocate handler to connection stream id')
